@@ -1,8 +1,10 @@
 package mast
 
 import (
+	"bytes"
 	"crypto/sha256"
 	"encoding/hex"
+	"encoding/json"
 	"fmt"
 	"os"
 	"sort"
@@ -241,6 +243,57 @@ func bVectors() []string {
 				err = m2.Iter(bctx, func(k, v interface{}) error { cnt++; return nil })
 			}
 			add("wide nf=%s n=%d reload entries=%d err=%v", nf, n, cnt, err != nil)
+		}
+	}
+	// a configured marshaler: keys that reach the marshaler path (structs, floats) take their layer
+	// and order from that marshaler's bytes
+	framed := func(v interface{}) ([]byte, error) {
+		b, err := json.Marshal(v)
+		return append([]byte("MAST1:"), b...), err
+	}
+	unframed := func(b []byte, v interface{}) error {
+		if !bytes.HasPrefix(b, []byte("MAST1:")) {
+			return fmt.Errorf("no frame")
+		}
+		return json.Unmarshal(b[6:], v)
+	}
+	for _, nf := range bFormats {
+		for _, bf := range []uint{3, 4, 16} {
+			st := newBStore("mem://vec4")
+			cfg := func() *RemoteConfig {
+				return &RemoteConfig{KeysLike: bKeyStruct{}, ValuesLike: 0, StoreImmutablePartsWith: st, Marshal: framed, Unmarshal: unframed}
+			}
+			m, err := NewRoot(&CreateRemoteOptions{BranchFactor: bf, NodeFormat: nf}).LoadMast(bctx, cfg())
+			if err != nil {
+				add("marshaler nf=%s bf=%d err", nf, bf)
+				continue
+			}
+			for i := 0; i < 60; i++ {
+				m.Insert(bctx, bKeyStruct{A: i * 7 % 60, B: fmt.Sprintf("b%d", i%5)}, i)
+			}
+			root, err := m.MakeRoot(bctx)
+			if err != nil {
+				add("marshaler nf=%s bf=%d makeroot err", nf, bf)
+				continue
+			}
+			add("marshaler struct/int nf=%s bf=%d %s", nf, bf, bRootString(root))
+			m2, err := root.LoadMast(bctx, cfg())
+			cnt, found := 0, 0
+			if err == nil {
+				err = m2.Iter(bctx, func(k, v interface{}) error { cnt++; return nil })
+				for i := 0; i < 60; i++ {
+					var v int
+					if ok, e := m2.Get(bctx, bKeyStruct{A: i * 7 % 60, B: fmt.Sprintf("b%d", i%5)}, &v); e == nil && ok && v == i {
+						found++
+					}
+				}
+			}
+			if nf == V115Binary {
+				add("marshaler nf=%s bf=%d reload entries=%d found=%d err=%v", nf, bf, cnt, found, err != nil)
+			}
+			fl, _ := DefaultLayer(framed)(bKeyStruct{A: int(bf), B: "x"}, bf)
+			fc, _ := DefaultKeyCompare(framed)(bKeyStruct{A: 2, B: "x"}, bKeyStruct{A: 10, B: "x"})
+			add("marshaler nf=%s bf=%d layer=%d cmp=%d", nf, bf, fl, fc)
 		}
 	}
 	// defaults
